@@ -16,7 +16,7 @@ RULE = ("(a) enumeration: EVERY truncation length and EVERY single-bit flip of e
         "stderr naming the program, no signal, no hang; with a FILE operand additionally no output file and the "
         "input untouched; non-trivial = invalid and the damage lies after the 4-byte stream header; distinct by "
         "input hash")
-TIMEOUT = 120
+TIMEOUT = 40      # inputs are small: a run takes milliseconds; three consecutive timeouts count as a hang
 
 
 def judge(r):
